@@ -157,7 +157,10 @@ impl Family for SetFam {
         match r {
             SetR::H(s) => format!("HashSet{:?}", sorted(s.as_reveal_ref().iter().copied())),
             SetR::B(s) => format!("BTreeSet{:?}", s.as_reveal_ref()),
-            SetR::V(s) => format!("Vec{:?}", s.as_reveal_ref()),
+            // Canonicalisation: a Vec-backed set only ever grows by `extend` (append) and is only read
+            // element-wise (`collect`), so order and multiplicity of its elements cannot influence
+            // alpha of any later result; without this the Vec receiver's state space is infinite.
+            SetR::V(s) => format!("Vec(as set){:?}", s.as_reveal_ref().iter().copied().collect::<BTreeSet<u8>>()),
         }
     }
     fn describe(&self, op: &Op) -> String {
